@@ -18,7 +18,13 @@ FINE = False  # when set, the three score levels are 7 - 3e-5, 7, 7 + 3e-5: step
 #               inside the relative band (1e-5) of a sloppy "is close" comparison
 
 
+#               FINE == "half": levels 8, 8.5, 9, written to text without a decimal point where integral ("8", "8.5",
+#               "9"), so that a reader chunk may hold only integers while a later chunk of the same file holds fractions
+
+
 def score_value(s):
+    if FINE == "half":
+        return 8.5 + 0.5 * s
     return 7.0 + 3e-5 * s if FINE else float(s)
 
 
